@@ -16,51 +16,1092 @@ def RSplit.toks : RSplit → List Tok
   | .deep (.elem _ _ _ kids) inner rest => (ftoks kids).drop inner ++ [Tok.cl] ++ ftoks rest
   | .deep _ _ rest => ftoks rest
 
-theorem splitRight_toks (Rt : List Node) (t : Nat) (r : RSplit) (h : splitRight Rt t = some r) :
-    r.toks = (ftoks Rt).drop t := by
-  sorry
+/-! ### generic list arithmetic -/
+
+theorem take_app_le {α} (l r : List α) (n : Nat) (h : n ≤ l.length) : (l ++ r).take n = l.take n := by
+  rw [List.take_append]; simp [Nat.sub_eq_zero_of_le h]
+
+theorem drop_app_le {α} (l r : List α) (n : Nat) (h : n ≤ l.length) : (l ++ r).drop n = l.drop n ++ r := by
+  rw [List.drop_append]; simp [Nat.sub_eq_zero_of_le h]
+
+theorem take_app_ge {α} (l r : List α) (n : Nat) (h : l.length ≤ n) :
+    (l ++ r).take n = l ++ r.take (n - l.length) := by
+  rw [List.take_append, List.take_of_length_le h]
+
+theorem drop_app_ge {α} (l r : List α) (n : Nat) (h : l.length ≤ n) :
+    (l ++ r).drop n = r.drop (n - l.length) := by
+  rw [List.drop_append, List.drop_eq_nil_of_le h]; simp
+
+theorem splitRight_toks : ∀ (Rt : List Node) (t : Nat) (r : RSplit), splitRight Rt t = some r →
+    r.toks = (ftoks Rt).drop t
+  | [], 0, r, h => by simp [splitRight] at h; subst h; simp [RSplit.toks]
+  | [], _+1, r, h => by simp [splitRight] at h
+  | n :: ns, t, r, h => by
+    unfold splitRight at h
+    split at h
+    · rename_i ht; subst ht; simp at h; subst h; simp [RSplit.toks]
+    · split at h
+      · rename_i ht hle
+        have ih := splitRight_toks ns (t - n.size) r h
+        rw [ih, ftoks_cons, drop_app_ge _ _ _ (by rw [Node.toks_length]; exact hle), Node.toks_length]
+      · rename_i ht hlt
+        cases n with
+        | text s m =>
+          simp only at h
+          split at h
+          · simp at h; subst h
+            simp only [Node.size_text] at hlt
+            simp only [RSplit.toks, ftoks_cons, Node.toks_text]
+            rw [drop_app_le _ _ _ (by simp; omega)]
+            simp
+          · simp at h
+        | leaf ty a m => simp at h
+        | elem ty a m kids =>
+          simp at h; subst h
+          simp only [Node.size_elem] at hlt
+          simp only [RSplit.toks, ftoks_cons, Node.toks_elem]
+          obtain ⟨t', rfl⟩ : ∃ t', t = t' + 1 := ⟨t - 1, by omega⟩
+          simp only [List.cons_append, List.drop_succ_cons, Nat.add_sub_cancel, List.append_assoc]
+          rw [drop_app_le _ _ _ (by rw [ftoks_length]; omega)]
+
+theorem splitRight_flat_toks {Rt : List Node} {t : Nat} {rest : List Node}
+    (h : splitRight Rt t = some (.flat rest)) : ftoks rest = (ftoks Rt).drop t := by
+  have := splitRight_toks Rt t _ h; simpa [RSplit.toks] using this
+
+theorem splitRight_deep_toks {Rt : List Node} {t : Nat} {ty a m kids inner rest}
+    (h : splitRight Rt t = some (.deep (.elem ty a m kids) inner rest)) :
+    (ftoks kids).drop inner ++ Tok.cl :: ftoks rest = (ftoks Rt).drop t := by
+  have := splitRight_toks Rt t _ h; simpa [RSplit.toks] using this
+
+theorem close_ok {S : Schema} {ty a m content c} (h : S.close ty a m content = .ok c) :
+    c = .elem ty a m content := by
+  unfold Schema.close at h
+  split at h
+  · simp at h; exact h.symm
+  · simp at h
+
+/-- taking `f` tokens of an element's tokens when `0 < f < size` -/
+theorem take_elem_toks (ty a m) (kids : List Node) (rest : List Tok) (f : Nat) (hf : f ≠ 0)
+    (hlt : f < 2 + fsize kids) :
+    ((Node.elem ty a m kids).toks ++ rest).take f = Tok.op ty a m :: (ftoks kids).take (f - 1) := by
+  obtain ⟨f', rfl⟩ : ∃ f', f = f' + 1 := ⟨f - 1, by omega⟩
+  simp only [Node.toks_elem, List.cons_append, List.take_succ_cons, Nat.add_sub_cancel, List.append_assoc]
+  rw [take_app_le _ _ _ (by rw [ftoks_length]; omega)]
 
 /-- **two-way join is a splice** -/
-theorem twoWay_toks (S : Schema) (L : List Node) (f : Nat) (Rt : List Node) (t : Nat) (X : List Node)
-    (h : twoWay S L f Rt t = .ok X) : ftoks X = (ftoks L).take f ++ (ftoks Rt).drop t := by
-  sorry
+theorem twoWay_toks (S : Schema) : ∀ (L : List Node) (f : Nat) (Rt : List Node) (t : Nat) (X : List Node),
+    twoWay S L f Rt t = .ok X → ftoks X = (ftoks L).take f ++ (ftoks Rt).drop t
+  | [], f, Rt, t, X, h => by
+    unfold twoWay at h
+    split at h
+    · split at h
+      · rename_i rest hs; simp at h; subst h
+        simp [splitRight_flat_toks hs]
+      · simp at h
+      · simp at h
+    · simp at h
+  | n :: ns, f, Rt, t, X, h => by
+    unfold twoWay at h
+    split at h
+    · rename_i hf; subst hf
+      split at h
+      · rename_i rest hs; simp at h; subst h
+        simp [splitRight_flat_toks hs]
+      · simp at h
+      · simp at h
+    · split at h
+      · rename_i hf hle
+        split at h
+        · rename_i r hr
+          simp at h; subst h
+          have ih := twoWay_toks S ns (f - n.size) Rt t r hr
+          rw [ftoks_cons, ih, ftoks_cons, take_app_ge _ _ _ (by rw [Node.toks_length]; exact hle),
+            Node.toks_length, List.append_assoc]
+        · simp at h
+      · rename_i hf hlt
+        cases n with
+        | text s m =>
+          simp only at h
+          split at h
+          · simp at h
+          · split at h
+            · rename_i rest hs; simp at h; subst h
+              simp only [Node.size_text] at hlt
+              rw [ftoks_cons, splitRight_flat_toks hs, ftoks_cons, take_app_le _ _ _ (by simp; omega)]
+              simp
+            · simp at h
+            · simp at h
+        | leaf ty a m => simp at h
+        | elem ty a m kids =>
+          simp only at h
+          split at h
+          · rename_i ty' a' m' kids' inner rest hs
+            split at h
+            · split at h
+              · rename_i innerRes hin
+                split at h
+                · rename_i c hc
+                  simp at h; subst h
+                  have ih := twoWay_toks S kids (f - 1) kids' inner innerRes hin
+                  have hr := splitRight_deep_toks hs
+                  rw [close_ok hc]
+                  simp only [Node.size_elem, Nat.not_le] at hlt
+                  rw [ftoks_cons (Node.elem ty a m kids), take_elem_toks _ _ _ _ _ _ hf hlt, ← hr]
+                  simp [fromArray_toks, ih]
+                · simp at h
+              · simp at h
+            · simp at h
+          · simp at h
+          · simp at h
 
 /-- tokens of the slice content `M` with `a` open levels on the left and `b` on the right removed -/
 def midToks (M : List Node) (a b : Nat) : List Tok :=
   ((ftoks M).drop a).take (fsize M - a - b)
 
+/-! ### spine depth vs. size -/
+
+theorem spineL_le : ∀ M : List Node, 2 * spineL M ≤ fsize M
+  | [] => by simp [spineL]
+  | .text .. :: _ => by simp [spineL]
+  | .leaf .. :: _ => by simp [spineL]
+  | .elem _ _ _ kids :: rest => by
+    have := spineL_le kids
+    simp [spineL]; omega
+
+theorem spineR_le : ∀ M : List Node, 2 * spineR M ≤ fsize M
+  | [] => by simp [spineR]
+  | [.text ..] => by simp [spineR]
+  | [.leaf ..] => by simp [spineR]
+  | [.elem _ _ _ kids] => by
+    have := spineR_le kids
+    simp [spineR]; omega
+  | _ :: n :: ns => by
+    have := spineR_le (n :: ns)
+    simp only [spineR, fsize_cons] at *; omega
+
+theorem spineR_concat_elem (ty a m kids) : ∀ init : List Node,
+    spineR (init ++ [Node.elem ty a m kids]) = 1 + spineR kids
+  | [] => by simp [spineR]
+  | [x] => by simp [spineR]
+  | x :: y :: r => by
+    have := spineR_concat_elem ty a m kids (y :: r)
+    simpa [spineR] using this
+
+theorem getLast?_decomp {α} {l : List α} {x : α} (h : l.getLast? = some x) : l = l.dropLast ++ [x] := by
+  have hne : l ≠ [] := by intro h0; subst h0; simp at h
+  rw [List.getLast?_eq_some_getLast hne] at h
+  simp at h
+  rw [← h]; exact (List.dropLast_concat_getLast hne).symm
+
+theorem midToks_eq (M : List Node) (a b : Nat) :
+    midToks M a b = ((ftoks M).take (fsize M - b)).drop a := by
+  unfold midToks; rw [List.drop_take, Nat.sub_right_comm]
+
+/-- dropping `a` tokens of an element's tokens when `0 < a ≤ 1 + fsize kids` -/
+theorem drop_elem_toks (ty at_ m) (kids : List Node) (rest : List Tok) (a : Nat) (ha : a ≠ 0)
+    (hle : a - 1 ≤ fsize kids) :
+    ((Node.elem ty at_ m kids).toks ++ rest).drop a = (ftoks kids).drop (a - 1) ++ Tok.cl :: rest := by
+  obtain ⟨a', rfl⟩ : ∃ a', a = a' + 1 := ⟨a - 1, by omega⟩
+  simp only [Node.toks_elem, List.cons_append, List.drop_succ_cons, Nat.add_sub_cancel, List.append_assoc] at *
+  rw [drop_app_le _ _ _ (by rw [ftoks_length]; omega)]; simp
+
+/-- removing the last `b` tokens of a list ending in an element, `1 ≤ b ≤ 1 + fsize kidsE` -/
+theorem take_last_elem (init : List Node) (ty a m) (kidsE : List Node) (b : Nat) (hb : b ≠ 0)
+    (hle : b - 1 ≤ fsize kidsE) :
+    (ftoks (init ++ [Node.elem ty a m kidsE])).take (fsize (init ++ [Node.elem ty a m kidsE]) - b)
+      = ftoks init ++ Tok.op ty a m :: (ftoks kidsE).take (fsize kidsE - (b - 1)) := by
+  rw [ftoks_append, fsize_append, take_app_ge _ _ _ (by rw [ftoks_length]; simp; omega)]
+  congr 1
+  simp only [ftoks_cons, ftoks_nil, Node.toks_elem, List.append_nil, fsize_cons, fsize_nil,
+    Node.size_elem, ftoks_length]
+  have : fsize init + (2 + fsize kidsE + 0) - b - fsize init = (fsize kidsE - (b - 1)) + 1 := by omega
+  rw [this, List.take_succ_cons, take_app_le _ _ _ (by rw [ftoks_length]; omega)]
+
+/-! ### right join, flat tail -/
+
+theorem rightJoin_toks {S : Schema} {M : List Node} {b : Nat} {rs : RSplit} {rj : List Node}
+    {Rt : List Node} {t : Nat}
+    (hs : splitRight Rt t = some rs) (h : rightJoin S M b rs = .ok rj) :
+    (b = 0 ∧ rj = [] ∧ ftoks rs.rest = (ftoks Rt).drop t) ∨
+    (∃ tyE aE mE kidsE tyR aR mR kidsR innerT rest, b ≠ 0 ∧
+      M.getLast? = some (.elem tyE aE mE kidsE) ∧ rs = .deep (.elem tyR aR mR kidsR) innerT rest ∧
+      ftoks rj ++ ftoks rs.rest
+        = Tok.op tyE aE mE :: (ftoks kidsE).take (fsize kidsE - (b - 1)) ++ (ftoks Rt).drop t) := by
+  unfold rightJoin at h
+  split at h
+  · rename_i rest
+    split at h
+    · rename_i hb; simp at h; subst h
+      exact .inl ⟨hb, rfl, by simpa [RSplit.rest] using splitRight_flat_toks hs⟩
+    · simp at h
+  · rename_i cR innerT rest
+    split at h
+    · simp at h
+    · rename_i hb
+      split at h
+      · rename_i tyE aE mE kidsE tyR aR mR kidsR hl
+        split at h
+        · split at h
+          · rename_i r hr
+            split at h
+            · rename_i c hc
+              simp at h; subst h
+              refine .inr ⟨tyE, aE, mE, kidsE, tyR, aR, mR, kidsR, innerT, rest, hb, hl, rfl, ?_⟩
+              rw [close_ok hc, ← splitRight_deep_toks hs]
+              simp [RSplit.rest, fromArray_toks, twoWay_toks S _ _ _ _ _ hr]
+            · simp at h
+          · simp at h
+        · simp at h
+      · simp at h
+
+theorem flatTail_toks {S : Schema} {M : List Node} {a b : Nat} {Rt : List Node} {t : Nat} {X : List Node}
+    (hb : b ≤ spineR M) (h : flatTail S M a b Rt t = .ok X) :
+    ftoks X = midToks M a b ++ (ftoks Rt).drop t := by
+  unfold flatTail at h
+  split at h
+  · simp at h
+  · rename_i ha
+    simp at ha; subst ha
+    split at h
+    · simp at h
+    · rename_i rs hs
+      split at h
+      · rename_i rj hrj
+        simp at h; subst h
+        rw [midToks_eq]
+        rcases rightJoin_toks hs hrj with ⟨hb0, hrj0, hrest⟩ | ⟨tyE, aE, mE, kidsE, _, _, _, _, _, _, hb0, hl, _, htoks⟩
+        · subst hb0; subst hrj0
+          simp [middle, ftoks_append, hrest, ← ftoks_length]
+        · obtain ⟨init, hM⟩ : ∃ init, M = init ++ [Node.elem tyE aE mE kidsE] := ⟨_, getLast?_decomp hl⟩
+          subst hM
+          have hsp : b - 1 ≤ fsize kidsE := by
+            rw [spineR_concat_elem] at hb
+            have := spineR_le kidsE; omega
+          have hmid : middle (init ++ [Node.elem tyE aE mE kidsE]) false (b != 0) = init := by
+            simp [middle, hb0]
+          rw [hmid, ftoks_append, ftoks_append, htoks, take_last_elem _ _ _ _ _ _ hb0 hsp]
+          simp
+      · simp at h
+
+/-- the tail of a level when `f` is deep in `L` and the slice is open on the left: after the
+    left join node come the rest of the slice's first child … -/
+theorem openTail_toks {S : Schema} {tyS aS mS} {kidsS Mtail : List Node} {a b : Nat} {rs : RSplit}
+    {rj Rt : List Node} {t : Nat}
+    (ha0 : a ≠ 0) (ha : a ≤ spineL (Node.elem tyS aS mS kidsS :: Mtail))
+    (hb : b ≤ spineR (Node.elem tyS aS mS kidsS :: Mtail))
+    (hs : splitRight Rt t = some rs)
+    (hrj : rightJoin S (Node.elem tyS aS mS kidsS :: Mtail) b rs = .ok rj)
+    (hne : b ≠ 0 → Mtail ≠ []) :
+    (ftoks kidsS).drop (a - 1) ++
+        Tok.cl :: ftoks (middle (Node.elem tyS aS mS kidsS :: Mtail) true (b != 0) ++ rj ++ rs.rest)
+      = midToks (Node.elem tyS aS mS kidsS :: Mtail) a b ++ (ftoks Rt).drop t := by
+  have hale : a - 1 ≤ fsize kidsS := by
+    have := spineL_le kidsS
+    simp only [spineL] at ha; omega
+  rw [midToks_eq]
+  rcases rightJoin_toks hs hrj with ⟨hb0, hrj0, hrest⟩ | ⟨tyE, aE, mE, kidsE, _, _, _, _, _, _, hb0, hl, _, htoks⟩
+  · subst hb0; subst hrj0
+    have hmid : middle (Node.elem tyS aS mS kidsS :: Mtail) true (0 != 0) = Mtail := by simp [middle]
+    rw [hmid, Nat.sub_zero, List.take_of_length_le (by rw [ftoks_length]; exact Nat.le_refl _),
+      ftoks_cons, drop_elem_toks _ _ _ _ _ _ ha0 hale]
+    simp [ftoks_append, hrest]
+  · have hMt := hne hb0
+    have hl' : Mtail.getLast? = some (Node.elem tyE aE mE kidsE) := by
+      cases Mtail with
+      | nil => exact absurd rfl hMt
+      | cons x xs => simpa [List.getLast?_cons_cons] using hl
+    obtain ⟨init, hM⟩ : ∃ init, Mtail = init ++ [Node.elem tyE aE mE kidsE] := ⟨_, getLast?_decomp hl'⟩
+    subst hM
+    have hsp : b - 1 ≤ fsize kidsE := by
+      have h1 := spineR_concat_elem tyE aE mE kidsE (Node.elem tyS aS mS kidsS :: init)
+      simp only [List.cons_append] at h1
+      rw [h1] at hb
+      have := spineR_le kidsE; omega
+    have hmid : middle (Node.elem tyS aS mS kidsS :: (init ++ [Node.elem tyE aE mE kidsE])) true (b != 0)
+        = init := by
+      simp [middle, hb0]
+    have h2 := take_last_elem (Node.elem tyS aS mS kidsS :: init) tyE aE mE kidsE b hb0 hsp
+    simp only [List.cons_append] at h2
+    rw [hmid, h2, ftoks_cons]
+    simp only [List.append_assoc]
+    rw [drop_elem_toks _ _ _ _ _ _ ha0 hale, ftoks_append, ftoks_append, htoks]
+    simp
+
+theorem midToks_single (tyS aS mS) (kidsS : List Node) (a b' : Nat) (ha0 : a ≠ 0)
+    (hale : a - 1 ≤ fsize kidsS) :
+    midToks [Node.elem tyS aS mS kidsS] a (b' + 1) = midToks kidsS (a - 1) b' := by
+  unfold midToks
+  have h := drop_elem_toks tyS aS mS kidsS [] a ha0 hale
+  simp only [List.append_nil] at h
+  simp only [ftoks_cons, ftoks_nil, List.append_nil, fsize_cons, fsize_nil, Node.size_elem]
+  rw [h]
+  have : 2 + fsize kidsS + 0 - a - (b' + 1) = fsize kidsS - (a - 1) - b' := by omega
+  rw [this, take_app_le _ _ _ (by rw [List.length_drop, ftoks_length]; omega)]
+
 /-- **three-way join is a splice** (at and below the slice's top level, and above it where the
     "slice" is a wrapper copy of `from`'s ancestors) -/
-theorem threeWay_toks (S : Schema) (L : List Node) (f extra : Nat) (M : List Node) (a b : Nat)
-    (Rt : List Node) (t : Nat) (X : List Node)
-    (ha : a ≤ spineL M) (hb : b ≤ spineR M)
-    (h : threeWay S L f extra M a b Rt t = .ok X) :
-    ftoks X = (ftoks L).take f ++ midToks M a b ++ (ftoks Rt).drop t := by
-  sorry
+theorem threeWay_toks (S : Schema) : ∀ (L : List Node) (f extra : Nat) (M : List Node) (a b : Nat)
+    (Rt : List Node) (t : Nat) (X : List Node),
+    a ≤ spineL M → b ≤ spineR M → threeWay S L f extra M a b Rt t = .ok X →
+    ftoks X = (ftoks L).take f ++ midToks M a b ++ (ftoks Rt).drop t
+  | [], f, extra, M, a, b, Rt, t, X, ha, hb, h => by
+    unfold threeWay at h
+    split at h
+    · split at h
+      · simp [flatTail_toks hb h]
+      · simp at h
+    · simp at h
+  | n :: ns, f, extra, M, a, b, Rt, t, X, ha, hb, h => by
+    unfold threeWay at h
+    split at h
+    · rename_i hf; subst hf
+      split at h
+      · simp [flatTail_toks hb h]
+      · simp at h
+    · rename_i hf
+      split at h
+      · rename_i hle
+        split at h
+        · rename_i r hr
+          simp at h; subst h
+          have ih := threeWay_toks S ns (f - n.size) extra M a b Rt t r ha hb hr
+          rw [ftoks_cons, ih, ftoks_cons, take_app_ge _ _ _ (by rw [Node.toks_length]; exact hle),
+            Node.toks_length]
+          simp
+        · simp at h
+      · rename_i hlt
+        cases n with
+        | text s m =>
+          simp only at h
+          split at h
+          · simp at h
+          · split at h
+            · simp at h
+            · split at h
+              · rename_i r hr
+                simp at h; subst h
+                simp only [Node.size_text] at hlt
+                rw [ftoks_cons, flatTail_toks hb hr, ftoks_cons, take_app_le _ _ _ (by simp; omega)]
+                simp
+              · simp at h
+        | leaf ty at_ m => simp at h
+        | elem tyL aL mL kidsL =>
+          simp only [Node.size_elem, Nat.not_le] at hlt
+          simp only at h
+          split at h
+          · simp at h
+          · rename_i rs hs
+            split at h
+            · -- above the slice
+              split at h
+              · rename_i tyR aR mR kidsR innerT rest
+                split at h
+                · split at h
+                  · rename_i inner hin
+                    split at h
+                    · rename_i c hc
+                      simp at h; subst h
+                      have ih := threeWay_toks S kidsL (f - 1) (extra - 1) M a b kidsR innerT inner ha hb hin
+                      rw [close_ok hc, ftoks_cons (Node.elem tyL aL mL kidsL),
+                        take_elem_toks _ _ _ _ _ _ hf hlt, ← splitRight_deep_toks hs]
+                      simp [fromArray_toks, ih]
+                    · simp at h
+                  · simp at h
+                · simp at h
+              · simp at h
+            · split at h
+              · simp at h
+              · rename_i ha0
+                split at h
+                · simp at h
+                · rename_i cS Mtail
+                  split at h
+                  · rename_i tyS aS mS kidsS
+                    split at h
+                    · simp at h
+                    · have hale : a - 1 ≤ fsize kidsS := by
+                        have := spineL_le kidsS
+                        simp only [spineL] at ha; omega
+                      split at h
+                      · -- both open, single slice child
+                        rename_i tyR aR mR kidsR innerT rest b' x hx
+                        obtain ⟨rfl, rfl⟩ : Node.elem tyS aS mS kidsS = x ∧ Mtail = [] := by
+                          simpa using hx
+                        split at h
+                        · simp at h
+                        · split at h
+                          · rename_i inner hin
+                            split at h
+                            · rename_i c hc
+                              simp at h; subst h
+                              have ha' : a - 1 ≤ spineL kidsS := by simp only [spineL] at ha; omega
+                              have hb' : b' ≤ spineR kidsS := by simp only [spineR] at hb; omega
+                              have ih := threeWay_toks S kidsL (f - 1) 0 kidsS (a - 1) b' kidsR innerT inner
+                                ha' hb' hin
+                              rw [close_ok hc, ftoks_cons (Node.elem tyL aL mL kidsL),
+                                take_elem_toks _ _ _ _ _ _ hf hlt, ← splitRight_deep_toks hs,
+                                midToks_single _ _ _ _ _ _ ha0 hale]
+                              simp [fromArray_toks, ih]
+                            · simp at h
+                          · simp at h
+                      · rename_i rs b _ _ _ hnot
+                        split at h
+                        · simp at h
+                        · split at h
+                          · rename_i lr hlr
+                            split at h
+                            · rename_i cl hcl
+                              split at h
+                              · rename_i rj hrj
+                                simp at h; subst h
+                                have hne : b ≠ 0 → Mtail ≠ [] := by
+                                  intro hb0 hMt; subst hMt
+                                  rcases rightJoin_toks hs hrj with ⟨h0, _⟩ |
+                                    ⟨_, _, _, _, tyR, aR, mR, kidsR, innerT, rest, _, _, hrs, _⟩
+                                  · exact hb0 h0
+                                  · obtain ⟨b', rfl⟩ : ∃ b', b = b' + 1 := ⟨b - 1, by omega⟩
+                                    exact hnot tyR aR mR kidsR innerT rest b' _ hrs rfl rfl
+                                have key := openTail_toks ha0 ha hb hs hrj hne
+                                rw [close_ok hcl, ftoks_cons (Node.elem tyL aL mL kidsL),
+                                  take_elem_toks _ _ _ _ _ _ hf hlt]
+                                simp only [ftoks_cons, Node.toks_elem, fromArray_toks,
+                                  twoWay_toks S _ _ _ _ _ hlr, List.cons_append, List.append_assoc]
+                                simp only [List.append_assoc] at key
+                                simp only [List.nil_append]
+                                rw [key]
+                              · simp at h
+                            · simp at h
+                          · simp at h
+                  · simp at h
+
+/-! ### cuts at depth 0, `atLevel`, `outer` -/
+
+theorem ancestorOpens_nil_of_depth {l : List Node} {p : Nat} (h : depthAt l p = 0) :
+    ancestorOpens l p = [] := by
+  apply List.eq_nil_of_length_eq_zero
+  rw [ancestorOpens_length, h]
+
+theorem fcut_prefix_toks {level l : List Node} {f : Nat} (h : fcut level 0 f = .ok l)
+    (hf : f ≤ fsize level) (hd : depthAt level f = 0) : ftoks l = (ftoks level).take f := by
+  by_cases hf0 : f = 0
+  · subst hf0
+    unfold fcut at h
+    split at h
+    · rename_i h0; simp at h0; simp at h; subst h
+      have : (ftoks level).length = 0 := by rw [ftoks_length]; exact h0.symm
+      simp [List.eq_nil_of_length_eq_zero this]
+    · simp at h; subst h; simp
+  · have := fcut_toks level l 0 f (by omega) hf h
+    rw [this, ancestorOpens_zero, hd]; simp
+
+theorem fcut_suffix_toks {level r : List Node} {t : Nat} (h : fcut level t (fsize level) = .ok r)
+    (hd : depthAt level t = 0) : ftoks r = (ftoks level).drop t := by
+  by_cases ht : t < fsize level
+  · by_cases ht0 : t = 0
+    · subst ht0
+      unfold fcut at h
+      simp at h; subst h; simp
+    · have := fcut_toks level r t (fsize level) ht (Nat.le_refl _) h
+      rw [this, ancestorOpens_nil_of_depth hd, depthAt_fsize]
+      simp only [List.nil_append, List.replicate_zero, List.append_nil]
+      exact List.take_of_length_le (by rw [List.length_drop, ftoks_length]; exact Nat.le_refl _)
+  · have hle : fsize level ≤ t := by omega
+    rw [List.drop_eq_nil_of_le (by rw [ftoks_length]; exact hle)]
+    unfold fcut at h
+    split at h
+    · rename_i h0; simp at h0; simp at h; subst h
+      have : (ftoks level).length = 0 := by rw [ftoks_length]; omega
+      exact List.eq_nil_of_length_eq_zero this
+    · simp at h; subst h; simp
+
+theorem atLevel_toks {S : Schema} {sl : Slice} {ty : TypeId} {level : List Node} {f t extra : Nat}
+    {X : List Node} (hwf : sl.wf = true) (hf : f ≤ fsize level)
+    (h : atLevel S sl ty level f t extra = .ok X) :
+    ftoks X = (ftoks level).take f ++ sl.toks ++ (ftoks level).drop t := by
+  unfold atLevel at h
+  simp only at h
+  split at h
+  · rename_i c hc
+    split at h
+    · simp at h; subst h
+      split at hc
+      · rename_i h0
+        cases hx : twoWay S level f level t with
+        | error e => rw [hx] at hc; simp [Except.map] at hc
+        | ok r =>
+          rw [hx] at hc; simp [Except.map] at hc; subst hc
+          have hnil : sl.toks = [] := by
+            have : (ftoks sl.content).length = 0 := by rw [ftoks_length]; exact h0
+            simp [Slice.toks, List.eq_nil_of_length_eq_zero this]
+          rw [fromArray_toks, twoWay_toks S _ _ _ _ _ hx, hnil]; simp
+      · split at hc
+        · rename_i hcond
+          simp only [Bool.and_eq_true, decide_eq_true_eq] at hcond
+          obtain ⟨⟨⟨ha, hb⟩, hdf⟩, hdt⟩ := hcond
+          split at hc
+          · rename_i l r hl hr
+            simp at hc; subst hc
+            rw [fappend_toks, fappend_toks, fcut_prefix_toks hl hf hdf, fcut_suffix_toks hr hdt]
+            simp [Slice.toks, ha, hb, ← ftoks_length]
+          · simp at hc
+          · simp at hc
+        · cases hx : threeWay S level f extra sl.content sl.openStart sl.openEnd level t with
+          | error e => rw [hx] at hc; simp [Except.map] at hc
+          | ok r =>
+            rw [hx] at hc; simp [Except.map] at hc; subst hc
+            simp only [Slice.wf, Bool.and_eq_true, decide_eq_true_eq] at hwf
+            rw [fromArray_toks, threeWay_toks S _ _ _ _ _ _ _ _ _ hwf.1 hwf.2 hx]
+            rfl
+    · simp at h
+  · simp at h
+
+theorem set_mid {α} (pre : List α) (n x : α) (ns : List α) :
+    (pre ++ n :: ns).set pre.length x = pre ++ x :: ns := by
+  induction pre with
+  | nil => simp
+  | cons p ps ih => simp [ih]
+
+theorem outer_toks (S : Schema) (sl : Slice) (hwf : sl.wf = true) :
+    ∀ (rest : List Node) (ty : TypeId) (level : List Node) (f0 t0 idx f t extra : Nat)
+      (pre X : List Node),
+      level = pre ++ rest → idx = pre.length → f0 = fsize pre + f → t0 = fsize pre + t →
+      f ≤ t → t0 ≤ fsize level →
+      outer S sl ty level f0 t0 idx rest f t extra = .ok X →
+      ftoks X = (ftoks level).take f0 ++ sl.toks ++ (ftoks level).drop t0
+  | [], ty, level, f0, t0, idx, f, t, extra, pre, X, hl, hi, hf0, ht0, hft, htl, h => by
+    unfold outer at h
+    exact atLevel_toks hwf (by omega) h
+  | n :: ns, ty, level, f0, t0, idx, f, t, extra, pre, X, hl, hi, hf0, ht0, hft, htl, h => by
+    have hfl : f0 ≤ fsize level := by omega
+    unfold outer at h
+    split at h
+    · exact atLevel_toks hwf hfl h
+    · rename_i hf
+      split at h
+      · rename_i hle
+        refine outer_toks S sl hwf ns ty level f0 t0 (idx + 1) (f - n.size) (t - n.size) extra
+          (pre ++ [n]) X ?_ ?_ ?_ ?_ ?_ htl h
+        · simp [hl]
+        · simp [hi]
+        · rw [fsize_append]; simp; omega
+        · rw [fsize_append]; simp; omega
+        · omega
+      · rename_i hlt
+        split at h
+        · rename_i tyC aC mC kidsC
+          split at h
+          · rename_i hcond
+            simp only [Bool.and_eq_true, decide_eq_true_eq, Node.size_elem] at hcond
+            simp only [Node.size_elem, Nat.not_le] at hlt
+            split at h
+            · rename_i inner hin
+              simp at h; subst h
+              have ih := outer_toks S sl hwf kidsC tyC kidsC (f - 1) (t - 1) 0 (f - 1) (t - 1) (extra - 1)
+                [] inner rfl rfl (by simp) (by simp) (by omega) (by omega) hin
+              subst hl; subst hi; subst hf0; subst ht0
+              rw [set_mid, ftoks_append, ftoks_append, ftoks_cons, ftoks_cons,
+                take_app_ge _ _ _ (by rw [ftoks_length]; omega),
+                drop_app_ge _ _ _ (by rw [ftoks_length]; omega), ftoks_length,
+                Nat.add_sub_cancel_left, Nat.add_sub_cancel_left,
+                take_elem_toks _ _ _ _ _ _ hf hlt,
+                drop_elem_toks _ _ _ _ _ _ (by omega) (by omega)]
+              simp [ih]
+            · simp at h
+          · exact atLevel_toks hwf hfl h
+        · exact atLevel_toks hwf hfl h
+
+theorem spine_sum_le : ∀ c : List Node, spineL c + spineR c ≤ fsize c
+  | [] => by simp [spineL, spineR]
+  | [.text ..] => by simp [spineL, spineR]
+  | [.leaf ..] => by simp [spineL, spineR]
+  | [.elem _ _ _ kids] => by
+    have := spine_sum_le kids
+    simp [spineL, spineR]; omega
+  | x :: n :: ns => by
+    have h1 : spineL (x :: n :: ns) = spineL [x] := by cases x <;> simp [spineL]
+    have h2 := spineL_le [x]
+    have h3 := spineR_le (n :: ns)
+    simp only [spineR, fsize_cons, fsize_nil, h1] at *
+    omega
+
+theorem replaceKids_ok {S : Schema} {ty : TypeId} {kids : List Node} {f t : Nat} {sl : Slice}
+    {kids' : List Node} (h : replaceKids S ty kids f t sl = .ok kids') :
+    f ≤ t ∧ t ≤ fsize kids ∧ sl.wf = true ∧
+      outer S sl ty kids f t 0 kids f t (depthAt kids f - sl.openStart) = .ok kids' := by
+  unfold replaceKids at h
+  split at h
+  · simp at h
+  · rename_i hg
+    simp only [inRange, Bool.or_eq_true, Bool.not_eq_true', decide_eq_false_iff_not,
+      decide_eq_true_eq, not_or, Nat.not_lt, Decidable.not_not] at hg
+    simp only at h
+    split at h
+    · simp at h
+    · split at h
+      · simp at h
+      · split at h
+        · simp at h
+        · rename_i hw
+          simp only [Bool.not_eq_true', Bool.not_eq_false] at hw
+          exact ⟨hg.2, hg.1.2, hw, h⟩
 
 /-- **replace is a splice**: on success the new token sequence is
     `old[:from] ++ slice tokens ++ old[to:]`. -/
 theorem replaceKids_toks (S : Schema) (ty : TypeId) (kids : List Node) (f t : Nat) (sl : Slice)
     (kids' : List Node) (h : replaceKids S ty kids f t sl = .ok kids') :
     ftoks kids' = (ftoks kids).take f ++ sl.toks ++ (ftoks kids).drop t := by
-  sorry
+  obtain ⟨hft, htl, hwf, ho⟩ := replaceKids_ok h
+  exact outer_toks S sl hwf kids ty kids f t 0 f t _ [] kids' rfl rfl (by simp) (by simp) hft htl ho
 
 /-- success implies the guards the model checks -/
 theorem replaceKids_guards (S : Schema) (ty : TypeId) (kids : List Node) (f t : Nat) (sl : Slice)
     (kids' : List Node) (h : replaceKids S ty kids f t sl = .ok kids') :
     f ≤ t ∧ t ≤ fsize kids ∧ sl.wf = true := by
-  sorry
+  obtain ⟨hft, htl, hwf, _⟩ := replaceKids_ok h
+  exact ⟨hft, htl, hwf⟩
 
 /-- **size arithmetic** -/
 theorem replaceKids_size (S : Schema) (ty : TypeId) (kids : List Node) (f t : Nat) (sl : Slice)
     (kids' : List Node) (h : replaceKids S ty kids f t sl = .ok kids') :
     (fsize kids' : Int) = fsize kids + sl.size - ((t : Int) - f) := by
-  sorry
+  obtain ⟨hft, htl, hwf, _⟩ := replaceKids_ok h
+  have ht := congrArg List.length (replaceKids_toks S ty kids f t sl kids' h)
+  simp only [Slice.wf, Bool.and_eq_true, decide_eq_true_eq] at hwf
+  have hs := spine_sum_le sl.content
+  simp only [Slice.toks, List.length_append, List.length_take, List.length_drop, ftoks_length] at ht
+  simp only [Slice.size]
+  omega
+
+/-! ### normal form -/
+
+@[simp] theorem fnormKids_nil : fnormKids [] = true := by simp [fnormKids]
+@[simp] theorem fnormKids_cons (n : Node) (ns : List Node) :
+    fnormKids (n :: ns) = (n.norm && fnormKids ns) := by simp [fnormKids]
+@[simp] theorem Node.norm_text (s : List Nat) (m : Marks) : (Node.text s m).norm = !s.isEmpty := by
+  simp [Node.norm]
+@[simp] theorem Node.norm_leaf (t : TypeId) (a : Attrs) (m : Marks) : (Node.leaf t a m).norm = true := by
+  simp [Node.norm]
+theorem Node.norm_elem (t : TypeId) (a : Attrs) (m : Marks) (k : List Node) :
+    (Node.elem t a m k).norm = fnorm k := by
+  simp [Node.norm, fnorm]
+
+theorem fnormKids_iff (l : List Node) : fnormKids l = true ↔ ∀ n ∈ l, n.norm = true := by
+  induction l with
+  | nil => simp
+  | cons n ns ih => simp [ih]
+
+theorem fnormKids_of_fnorm {l : List Node} (h : fnorm l = true) : fnormKids l = true := by
+  simp only [fnorm, Bool.and_eq_true] at h; exact h.1
+
+theorem fnormKids_drop {l : List Node} (h : fnormKids l = true) (k : Nat) : fnormKids (l.drop k) = true := by
+  rw [fnormKids_iff] at *
+  intro n hn; exact h n (List.mem_of_mem_drop hn)
+
+theorem fnormKids_dropLast {l : List Node} (h : fnormKids l = true) : fnormKids l.dropLast = true := by
+  rw [fnormKids_iff] at *
+  intro n hn; exact h n (List.dropLast_subset l hn)
+
+theorem middle_norm {M : List Node} (h : fnormKids M = true) (oL oR : Bool) :
+    fnormKids (middle M oL oR) = true := by
+  unfold middle
+  cases oL <;> cases oR <;>
+    simp only [if_true, if_false, Bool.false_eq_true] <;>
+    first | exact h | exact fnormKids_dropLast h | exact fnormKids_drop h 1
+          | exact fnormKids_dropLast (fnormKids_drop h 1)
+
+def RSplit.normK : RSplit → Bool
+  | .flat rest => fnormKids rest
+  | .deep c _ rest => c.norm && fnormKids rest
+
+theorem splitRight_norm : ∀ (Rt : List Node) (t : Nat) (r : RSplit), fnormKids Rt = true →
+    splitRight Rt t = some r → r.normK = true
+  | [], 0, r, hn, h => by simp [splitRight] at h; subst h; simp [RSplit.normK]
+  | [], _+1, r, hn, h => by simp [splitRight] at h
+  | n :: ns, t, r, hn, h => by
+    unfold splitRight at h
+    simp only [fnormKids_cons, Bool.and_eq_true] at hn
+    split at h
+    · simp at h; subst h; simp [RSplit.normK, hn]
+    · split at h
+      · exact splitRight_norm ns (t - n.size) r hn.2 h
+      · rename_i ht hlt
+        cases n with
+        | text s m =>
+          simp only at h
+          split at h
+          · simp at h; subst h
+            simp only [Node.size_text, Nat.not_le] at hlt
+            simp only [RSplit.normK, fnormKids_cons, Node.norm_text, hn.2, Bool.and_true]
+            cases hd : s.drop t with
+            | nil => simp at hd; omega
+            | cons x xs => simp
+          · simp at h
+        | leaf ty a m => simp at h
+        | elem ty a m kids =>
+          simp at h; subst h
+          simp [RSplit.normK, hn]
+
+theorem close_norm {S : Schema} {ty a m} {pieces : List Node} {c : Node}
+    (hp : fnormKids pieces = true) (h : S.close ty a m (fromArray pieces) = .ok c) : c.norm = true := by
+  rw [close_ok h, Node.norm_elem]; exact fromArray_norm _ hp
+
+theorem take_nonempty {s : List Nat} {f : Nat} (hf : f ≠ 0) (hs : s.isEmpty = false) :
+    (s.take f).isEmpty = false := by
+  cases s with
+  | nil => simp at hs
+  | cons x xs =>
+    obtain ⟨f', rfl⟩ : ∃ f', f = f' + 1 := ⟨f - 1, by omega⟩
+    simp
+
+theorem twoWay_norm (S : Schema) : ∀ (L : List Node) (f : Nat) (Rt : List Node) (t : Nat) (X : List Node),
+    fnormKids L = true → fnormKids Rt = true → twoWay S L f Rt t = .ok X → fnormKids X = true
+  | [], f, Rt, t, X, hL, hR, h => by
+    unfold twoWay at h
+    split at h
+    · split at h
+      · rename_i rest hs; simp at h; subst h
+        simpa [RSplit.normK] using splitRight_norm _ _ _ hR hs
+      · simp at h
+      · simp at h
+    · simp at h
+  | n :: ns, f, Rt, t, X, hL, hR, h => by
+    unfold twoWay at h
+    simp only [fnormKids_cons, Bool.and_eq_true] at hL
+    split at h
+    · split at h
+      · rename_i rest hs; simp at h; subst h
+        simpa [RSplit.normK] using splitRight_norm _ _ _ hR hs
+      · simp at h
+      · simp at h
+    · rename_i hf
+      split at h
+      · split at h
+        · rename_i r hr
+          simp at h; subst h
+          simp [hL.1, twoWay_norm S ns _ Rt t r hL.2 hR hr]
+        · simp at h
+      · cases n with
+        | text s m =>
+          simp only at h
+          split at h
+          · simp at h
+          · split at h
+            · rename_i rest hs; simp at h; subst h
+              have hr : fnormKids rest = true := by
+                simpa [RSplit.normK] using splitRight_norm _ _ _ hR hs
+              have h1 := hL.1
+              simp only [Node.norm_text, Bool.not_eq_true'] at h1
+              simp [hr, take_nonempty hf h1]
+            · simp at h
+            · simp at h
+        | leaf ty a m => simp at h
+        | elem ty a m kids =>
+          simp only at h
+          split at h
+          · rename_i ty' a' m' kids' inner rest hs
+            split at h
+            · split at h
+              · rename_i innerRes hin
+                split at h
+                · rename_i c hc
+                  simp at h; subst h
+                  have hr := splitRight_norm _ _ _ hR hs
+                  simp only [RSplit.normK, Bool.and_eq_true, Node.norm_elem] at hr
+                  have h1 := hL.1
+                  rw [Node.norm_elem] at h1
+                  have ih := twoWay_norm S kids (f - 1) kids' inner innerRes (fnormKids_of_fnorm h1)
+                    (fnormKids_of_fnorm hr.1) hin
+                  simp [close_norm ih hc, hr.2]
+                · simp at h
+              · simp at h
+            · simp at h
+          · simp at h
+          · simp at h
+
+theorem RSplit.rest_norm {rs : RSplit} (h : rs.normK = true) : fnormKids rs.rest = true := by
+  cases rs with
+  | flat r => simpa [RSplit.normK, RSplit.rest] using h
+  | deep c i r =>
+    simp only [RSplit.normK, Bool.and_eq_true] at h
+    simpa [RSplit.rest] using h.2
+
+theorem rightJoin_norm {S : Schema} {M : List Node} {b : Nat} {rs : RSplit} {rj : List Node}
+    (hM : fnormKids M = true) (hrs : rs.normK = true) (h : rightJoin S M b rs = .ok rj) :
+    fnormKids rj = true := by
+  unfold rightJoin at h
+  split at h
+  · split at h
+    · simp at h; subst h; simp
+    · simp at h
+  · rename_i cR innerT rest
+    split at h
+    · simp at h
+    · split at h
+      · rename_i tyE aE mE kidsE tyR aR mR kidsR hl
+        split at h
+        · split at h
+          · rename_i r hr
+            split at h
+            · rename_i c hc
+              simp at h; subst h
+              have hE : (Node.elem tyE aE mE kidsE).norm = true :=
+                (fnormKids_iff M).1 hM _ (List.mem_of_getLast? hl)
+              simp only [RSplit.normK, Bool.and_eq_true] at hrs
+              rw [Node.norm_elem] at hE
+              have hR := hrs.1
+              rw [Node.norm_elem] at hR
+              have := twoWay_norm S _ _ _ _ _ (fnormKids_of_fnorm hE) (fnormKids_of_fnorm hR) hr
+              simp [close_norm this hc]
+            · simp at h
+          · simp at h
+        · simp at h
+      · simp at h
+
+theorem flatTail_norm {S : Schema} {M : List Node} {a b : Nat} {Rt : List Node} {t : Nat} {X : List Node}
+    (hM : fnormKids M = true) (hR : fnormKids Rt = true) (h : flatTail S M a b Rt t = .ok X) :
+    fnormKids X = true := by
+  unfold flatTail at h
+  split at h
+  · simp at h
+  · split at h
+    · simp at h
+    · rename_i rs hs
+      have hrs := splitRight_norm _ _ _ hR hs
+      split at h
+      · rename_i rj hrj
+        simp at h; subst h
+        simp [fnormKids_append, middle_norm hM, rightJoin_norm hM hrs hrj, RSplit.rest_norm hrs]
+      · simp at h
+
+theorem threeWay_norm (S : Schema) : ∀ (L : List Node) (f extra : Nat) (M : List Node) (a b : Nat)
+    (Rt : List Node) (t : Nat) (X : List Node),
+    fnormKids L = true → fnormKids M = true → fnormKids Rt = true →
+    threeWay S L f extra M a b Rt t = .ok X → fnormKids X = true
+  | [], f, extra, M, a, b, Rt, t, X, hL, hM, hR, h => by
+    unfold threeWay at h
+    split at h
+    · split at h
+      · exact flatTail_norm hM hR h
+      · simp at h
+    · simp at h
+  | n :: ns, f, extra, M, a, b, Rt, t, X, hL, hM, hR, h => by
+    unfold threeWay at h
+    simp only [fnormKids_cons, Bool.and_eq_true] at hL
+    split at h
+    · split at h
+      · exact flatTail_norm hM hR h
+      · simp at h
+    · rename_i hf
+      split at h
+      · split at h
+        · rename_i r hr
+          simp at h; subst h
+          simp [hL.1, threeWay_norm S ns _ extra M a b Rt t r hL.2 hM hR hr]
+        · simp at h
+      · cases n with
+        | text s m =>
+          simp only at h
+          split at h
+          · simp at h
+          · split at h
+            · simp at h
+            · split at h
+              · rename_i r hr
+                simp at h; subst h
+                have h1 := hL.1
+                simp only [Node.norm_text, Bool.not_eq_true'] at h1
+                simp [flatTail_norm hM hR hr, take_nonempty hf h1]
+              · simp at h
+        | leaf ty at_ m => simp at h
+        | elem tyL aL mL kidsL =>
+          have hkL : fnormKids kidsL = true := by
+            have h1 := hL.1
+            rw [Node.norm_elem] at h1; exact fnormKids_of_fnorm h1
+          simp only at h
+          split at h
+          · simp at h
+          · rename_i rs hs
+            have hrs := splitRight_norm _ _ _ hR hs
+            split at h
+            · split at h
+              · rename_i tyR aR mR kidsR innerT rest
+                simp only [RSplit.normK, Bool.and_eq_true, Node.norm_elem] at hrs
+                split at h
+                · split at h
+                  · rename_i inner hin
+                    split at h
+                    · rename_i c hc
+                      simp at h; subst h
+                      have ih := threeWay_norm S kidsL (f - 1) (extra - 1) M a b kidsR innerT inner
+                        hkL hM (fnormKids_of_fnorm hrs.1) hin
+                      simp [close_norm ih hc, hrs.2]
+                    · simp at h
+                  · simp at h
+                · simp at h
+              · simp at h
+            · split at h
+              · simp at h
+              · split at h
+                · simp at h
+                · rename_i cS Mtail
+                  split at h
+                  · rename_i tyS aS mS kidsS
+                    have hkS : fnormKids kidsS = true := by
+                      simp only [fnormKids_cons, Bool.and_eq_true, Node.norm_elem] at hM
+                      exact fnormKids_of_fnorm hM.1
+                    split at h
+                    · simp at h
+                    · split at h
+                      · rename_i tyR aR mR kidsR innerT rest b' x hx
+                        simp only [RSplit.normK, Bool.and_eq_true, Node.norm_elem] at hrs
+                        split at h
+                        · simp at h
+                        · split at h
+                          · rename_i inner hin
+                            split at h
+                            · rename_i c hc
+                              simp at h; subst h
+                              have ih := threeWay_norm S kidsL (f - 1) 0 kidsS _ b' kidsR innerT inner
+                                hkL hkS (fnormKids_of_fnorm hrs.1) hin
+                              simp [close_norm ih hc, hrs.2]
+                            · simp at h
+                          · simp at h
+                      · split at h
+                        · simp at h
+                        · split at h
+                          · rename_i lr hlr
+                            split at h
+                            · rename_i cl hcl
+                              split at h
+                              · rename_i rj hrj
+                                simp at h; subst h
+                                have h2 := twoWay_norm S _ _ _ _ _ hkL hkS hlr
+                                simp [close_norm h2 hcl, fnormKids_append, middle_norm hM,
+                                  rightJoin_norm hM hrs hrj, RSplit.rest_norm hrs]
+                              · simp at h
+                            · simp at h
+                          · simp at h
+                  · simp at h
+
+theorem atLevel_norm {S : Schema} {sl : Slice} {ty : TypeId} {level : List Node} {f t extra : Nat}
+    {X : List Node} (hl : fnorm level = true) (hs : fnorm sl.content = true)
+    (h : atLevel S sl ty level f t extra = .ok X) : fnorm X = true := by
+  have hlk := fnormKids_of_fnorm hl
+  have hsk := fnormKids_of_fnorm hs
+  unfold atLevel at h
+  simp only at h
+  split at h
+  · rename_i c hc
+    split at h
+    · simp at h; subst h
+      split at hc
+      · cases hx : twoWay S level f level t with
+        | error e => rw [hx] at hc; simp [Except.map] at hc
+        | ok r =>
+          rw [hx] at hc; simp [Except.map] at hc; subst hc
+          exact fromArray_norm _ (twoWay_norm S _ _ _ _ _ hlk hlk hx)
+      · split at hc
+        · split at hc
+          · rename_i l r hl' hr'
+            simp at hc; subst hc
+            exact fappend_norm _ _ (fappend_norm _ _ (fcut_norm _ _ _ _ hl hl') hs)
+              (fcut_norm _ _ _ _ hl hr')
+          · simp at hc
+          · simp at hc
+        · cases hx : threeWay S level f extra sl.content sl.openStart sl.openEnd level t with
+          | error e => rw [hx] at hc; simp [Except.map] at hc
+          | ok r =>
+            rw [hx] at hc; simp [Except.map] at hc; subst hc
+            exact fromArray_norm _ (threeWay_norm S _ _ _ _ _ _ _ _ _ hlk hsk hlk hx)
+    · simp at h
+  · simp at h
+
+theorem adjOk_elem_right (p : Node) (ty a m k) : adjOk p (Node.elem ty a m k) = true := by
+  cases p <;> simp [adjOk]
+
+theorem adjOk_elem_left (p : Node) (ty a m k) : adjOk (Node.elem ty a m k) p = true := by
+  cases p <;> simp [adjOk]
+
+/-- replacing a child by an element keeps the no-adjacent-equal-marks-text property -/
+theorem chainOk_set_elem (n : Node) (ns : List Node) (ty a m k) : ∀ pre : List Node,
+    chainOk (pre ++ n :: ns) = true → chainOk (pre ++ Node.elem ty a m k :: ns) = true
+  | [], h => by
+    cases ns with
+    | nil => simp [chainOk]
+    | cons b rest =>
+      simp only [List.nil_append, chainOk, Bool.and_eq_true] at h ⊢
+      exact ⟨adjOk_elem_left _ _ _ _ _, h.2⟩
+  | [p], h => by
+    have h0 := chainOk_set_elem n ns ty a m k []
+    simp only [List.cons_append, List.nil_append, chainOk, Bool.and_eq_true] at h h0 ⊢
+    exact ⟨adjOk_elem_right _ _ _ _ _, h0 h.2⟩
+  | p :: q :: r, h => by
+    have h0 := chainOk_set_elem n ns ty a m k (q :: r)
+    simp only [List.cons_append, chainOk, Bool.and_eq_true] at h h0 ⊢
+    exact ⟨h.1, h0 h.2⟩
+
+theorem outer_norm (S : Schema) (sl : Slice) (hs : fnorm sl.content = true) :
+    ∀ (rest : List Node) (ty : TypeId) (level : List Node) (f0 t0 idx f t extra : Nat)
+      (pre X : List Node),
+      level = pre ++ rest → idx = pre.length → fnorm level = true →
+      outer S sl ty level f0 t0 idx rest f t extra = .ok X → fnorm X = true
+  | [], ty, level, f0, t0, idx, f, t, extra, pre, X, hl, hi, hn, h => by
+    unfold outer at h
+    exact atLevel_norm hn hs h
+  | n :: ns, ty, level, f0, t0, idx, f, t, extra, pre, X, hl, hi, hn, h => by
+    unfold outer at h
+    split at h
+    · exact atLevel_norm hn hs h
+    · split at h
+      · refine outer_norm S sl hs ns ty level f0 t0 (idx + 1) (f - n.size) (t - n.size) extra
+          (pre ++ [n]) X ?_ ?_ hn h
+        · simp [hl]
+        · simp [hi]
+      · split at h
+        · rename_i tyC aC mC kidsC _
+          split at h
+          · split at h
+            · rename_i inner hin
+              simp at h; subst h
+              subst hl; subst hi
+              simp only [fnorm, Bool.and_eq_true] at hn
+              have hk : fnorm kidsC = true := by
+                have h1 := hn.1
+                simp only [fnormKids_append, fnormKids_cons, Bool.and_eq_true] at h1
+                rw [← Node.norm_elem tyC aC mC]; exact h1.2.1
+              have ih := outer_norm S sl hs kidsC tyC kidsC (f - 1) (t - 1) 0 (f - 1) (t - 1) (extra - 1)
+                [] inner rfl rfl hk hin
+              rw [set_mid]
+              simp only [fnorm, Bool.and_eq_true]
+              refine ⟨?_, chainOk_set_elem _ _ _ _ _ _ _ hn.2⟩
+              have h1 := hn.1
+              simp only [fnormKids_append, fnormKids_cons, Bool.and_eq_true] at h1 ⊢
+              exact ⟨h1.1, by rw [Node.norm_elem]; exact ih, h1.2.2⟩
+            · simp at h
+          · exact atLevel_norm hn hs h
+        · exact atLevel_norm hn hs h
 
 /-- **normal form is preserved** (adjacent same-markup text is merged) -/
 theorem replaceKids_norm (S : Schema) (ty : TypeId) (kids : List Node) (f t : Nat) (sl : Slice)
     (kids' : List Node) (hn : fnorm kids = true) (hs : fnorm sl.content = true)
     (h : replaceKids S ty kids f t sl = .ok kids') : fnorm kids' = true := by
-  sorry
+  obtain ⟨_, _, _, ho⟩ := replaceKids_ok h
+  exact outer_norm S sl hs kids ty kids f t 0 f t _ [] kids' rfl rfl hn ho
+
+/-! ### the statements as originally posed (binder form), checked against the proofs above -/
+
+example (Rt : List Node) (t : Nat) (r : RSplit) (h : splitRight Rt t = some r) :
+    r.toks = (ftoks Rt).drop t := splitRight_toks Rt t r h
+
+example (S : Schema) (L : List Node) (f : Nat) (Rt : List Node) (t : Nat) (X : List Node)
+    (h : twoWay S L f Rt t = .ok X) : ftoks X = (ftoks L).take f ++ (ftoks Rt).drop t :=
+  twoWay_toks S L f Rt t X h
+
+example (S : Schema) (L : List Node) (f extra : Nat) (M : List Node) (a b : Nat)
+    (Rt : List Node) (t : Nat) (X : List Node)
+    (ha : a ≤ spineL M) (hb : b ≤ spineR M)
+    (h : threeWay S L f extra M a b Rt t = .ok X) :
+    ftoks X = (ftoks L).take f ++ midToks M a b ++ (ftoks Rt).drop t :=
+  threeWay_toks S L f extra M a b Rt t X ha hb h
 
 end PM
